@@ -310,6 +310,71 @@ fn run_batch(ctx: &Arc<Ctx>, gen: Gen, seed: u64, runs: u64, threads: u64, sampl
     total
 }
 
+/// Non-gating exploration of hard I/O faults (DESIGN §4.4): what do the generators do when a read
+/// fails, a file is torn or corrupt, or the listing errors out? Outcomes are counted, never judged.
+fn run_fault_batch(ctx: &Arc<Ctx>, gen: Gen, seed: u64, runs: u64, threads: u64) -> BTreeMap<(&'static str, &'static str), u64> {
+    let n_reads: u64 = match gen {
+        Gen::Layout => names_of(&ctx.image, "data/cldr-misc-full/main").len() as u64,
+        Gen::Likely => 1,
+    };
+    let mut handles = vec![];
+    for t in 0..threads {
+        let ctx = ctx.clone();
+        handles.push(
+            std::thread::Builder::new()
+                .stack_size(64 << 20)
+                .spawn(move || {
+                    let mut m: BTreeMap<(&'static str, &'static str), u64> = BTreeMap::new();
+                    let mut good: Vec<String> = vec![];
+                    let mut i = t;
+                    while i < runs {
+                        let mut r = rng::Rng::new(rng::run_seed(seed, gen.stream() + 16, i));
+                        let kind = world::HardKind::ALL[r.below(world::HardKind::ALL.len() as u64) as usize];
+                        let plan = world::HardPlan {
+                            kind,
+                            at: r.below(n_reads.max(1)),
+                            salt: r.next_u64(),
+                        };
+                        let res = sim::execute_with(gen, &ctx.image, sim::random_mode(seed, gen, i), false, false, Some(plan));
+                        let outcome = if !res.hard_fired {
+                            "fault_not_reached"
+                        } else if res.panic.is_some() {
+                            if res.out.is_empty() {
+                                "fail_stop_nothing_printed"
+                            } else {
+                                "failed_after_partial_output"
+                            }
+                        } else if sim::judge(&res, &ctx.comp, &mut good).is_empty() {
+                            "completed_output_equals_tables"
+                        } else {
+                            "completed_output_differs"
+                        };
+                        *m.entry((kind.name(), outcome)).or_default() += 1;
+                        i += threads;
+                    }
+                    m
+                })
+                .unwrap(),
+        );
+    }
+    let mut total: BTreeMap<(&'static str, &'static str), u64> = BTreeMap::new();
+    for h in handles {
+        for (k, v) in h.join().unwrap_or_else(|_| harness_error("fault-exploration worker panicked")) {
+            *total.entry(k).or_default() += v;
+        }
+    }
+    total
+}
+
+fn fault_json(m: &BTreeMap<(&'static str, &'static str), u64>) -> serde_json::Value {
+    let mut o = serde_json::Map::new();
+    for ((kind, outcome), n) in m {
+        let e = o.entry(kind.to_string()).or_insert_with(|| json!({}));
+        e[*outcome] = json!(n);
+    }
+    serde_json::Value::Object(o)
+}
+
 /// Re-execute the sampled runs on a different worker assignment; the event-log digests must agree.
 fn determinism_recheck(ctx: &Arc<Ctx>, gen: Gen, seed: u64, samples: &BTreeMap<u64, u64>, threads: u64) -> (u64, u64) {
     let list: Vec<(u64, u64)> = samples.iter().map(|(a, b)| (*a, *b)).collect();
@@ -508,6 +573,9 @@ fn cmd_check(a: &Args) -> i32 {
     let lay = run_batch(&ctx, Gen::Layout, seed, layout_runs, threads, stride_layout);
     let lik = run_batch(&ctx, Gen::Likely, seed, likely_runs, threads.min(likely_runs.max(1)), 1);
     let sim_wall = t_sim.elapsed().as_secs_f64();
+    let fault_runs = opt_u64(a, "fault-runs", if tier == "quick" { 6_000 } else { 300_000 });
+    let hf_lay = run_fault_batch(&ctx, Gen::Layout, seed, fault_runs, threads);
+    let hf_lik = run_fault_batch(&ctx, Gen::Likely, seed, (fault_runs / 100).max(12), threads);
     let (dn_l, dbad_l) = determinism_recheck(&ctx, Gen::Layout, seed, &lay.sample_digests, threads);
     let (dn_k, dbad_k) = determinism_recheck(&ctx, Gen::Likely, seed, &lik.sample_digests, threads.min(4));
     if dbad_l + dbad_k > 0 {
@@ -536,6 +604,19 @@ fn cmd_check(a: &Args) -> i32 {
     );
     if world::FOREIGN_THREAD_SEAM_USE.load(std::sync::atomic::Ordering::SeqCst) {
         harness_error("the generator reached a simulator seam from a thread it spawned itself: this simulator owns no thread scheduler (the pinned generators are single-threaded), so no verdict is given");
+    }
+    {
+        let sum = |m: &BTreeMap<(&'static str, &'static str), u64>, o: &str| -> u64 { m.iter().filter(|((_, x), _)| *x == o).map(|(_, n)| *n).sum() };
+        println!(
+            "hard-fault exploration (not gating): layout {} runs: fail-stop {}, partial output {}, completed==tables {}, completed!=tables {}; likely: fail-stop {}, completed!=tables {}",
+            fault_runs,
+            sum(&hf_lay, "fail_stop_nothing_printed"),
+            sum(&hf_lay, "failed_after_partial_output"),
+            sum(&hf_lay, "completed_output_equals_tables"),
+            sum(&hf_lay, "completed_output_differs"),
+            sum(&hf_lik, "fail_stop_nothing_printed"),
+            sum(&hf_lik, "completed_output_differs"),
+        );
     }
     // the seams must actually have been exercised, otherwise silence means nothing
     if layout_runs >= 100 {
@@ -665,7 +746,13 @@ fn cmd_check(a: &Args) -> i32 {
                 "eintr": sum.eintr,
                 "bytes_read": sum.bytes_read,
                 "reads_that_escaped_to_the_real_fs": sum.fs_escapes,
-                "hard_io_faults": "0 (deliberately not injected in gating runs: C18 does not say what a generator must do when its input is unreadable, see DESIGN §4.4)",
+                "hard_io_faults_in_gating_runs": "0 (deliberately not injected in gating runs: C18 does not say what a generator must do when its input is unreadable, see DESIGN §4.4)",
+            },
+            "hard_fault_exploration_not_gating": {
+                "note": "separate batch, outcomes counted but never judged: one hard fault per run (EIO / ENOENT on the k-th file read, torn file, flipped bit, error entry in the listing, failing read_dir) on top of the run's ordinary seeded schedule",
+                "runs": { "generate_layout": fault_runs, "generate_likelysubtags": (fault_runs / 100).max(12) },
+                "generate_layout": fault_json(&hf_lay),
+                "generate_likelysubtags": fault_json(&hf_lik),
             },
             "profiles": {
                 "directory_order": lay.by_dir_kind,
